@@ -124,7 +124,10 @@ impl<'a> NumberPartsFmt<'a> {
                 },
                 'u' => {
                     if let Some(ref unit) = parts.raw_unit {
-                        if unit.is_dimensionless() {
+                        if unit.is_dimensionless()
+                            && parts.factor.is_none()
+                            && parts.divfactor.is_none()
+                        {
                             continue;
                         }
                         let mut frac = vec![];
